@@ -88,9 +88,12 @@ CHECKS["C15"] = dict(
          "remainder < b dropped), scale * b, translated molecule read at the new scale maps back to the "
          "same original pixel coordinate, voxel k of a binned box = b-block K = b*k+j of the b-times larger "
          "original box; single and batch loaders use identical arithmetic; binning by a then b = binning by a*b "
-         "(voxels, lengths, translations, scales) and mass is conserved over the kept voxels. Block-sum model "
-         "compared voxel by voxel with bin_image (numpy, dask incl. irregular chunks, mixed batches).",
-    design="5 C15", technique="Lean 4 proof over generated binning kernels + block-sum correspondence")
+         "(voxels, lengths, translations, scales) and mass is conserved over the kept voxels. Array level: the "
+         "executable list model of one axis (Model.binList) meets the block-sum specification for every list, "
+         "and every history of binnings equals one binning by the product (binHist_eq), every length. Block-sum "
+         "model compared voxel by voxel with bin_image (numpy, dask incl. irregular chunks, mixed batches); "
+         "binning histories of one axis are run through the real bin_image (K2 m:binaxis).",
+    design="5 C15", technique="Lean 4 proof over generated binning kernels and an executable list model of bin_image + block-sum / binning-history correspondence")
 
 CHECKS["C12"] = dict(
     text="Theorems over generic row types: zip/unzip round trip; every data-frame operation yields f(rows) "
